@@ -67,7 +67,12 @@ int main(int argc, char** argv)
                         }
                         if (r != -2) vrt::log_ev("wdone", "cell", 0);  // the write handle is gone: commit / cancel completed
                     } else {
-                        auto s = (op == 5) ? cow->try_lock_shared() : cow->lock_shared();
+                        // try_snap: the three try forms in turn (all wait-free: they map to the same operation of the model)
+                        const std::chrono::milliseconds du(10);
+                        auto s = (op != 5)               ? cow->lock_shared()
+                                 : ((tid + opi) % 3 == 0) ? cow->try_lock_shared()
+                                 : ((tid + opi) % 3 == 1) ? cow->try_lock_shared_for(du)
+                                                          : cow->try_lock_shared_until(std::chrono::steady_clock::now() + du);
                         vrt::log_ev("sget", "cell", s->id);
                         r = s->read();
                         if (op == 4) {
